@@ -106,3 +106,14 @@ Theorem C04_source_group_group : forall host echo pre gm ms p,
   events st' = [("sg.Use"%string, [VL (gm ++ ms)])] /\ GoLoop.get (fields st') "g.middleware" = VL gm.
 Proof. exact src_group_group_spec. Qed.
 Print Assumptions C04_source_group_group.
+
+(* ---- applyMiddleware itself, from its statement-level translation (Gen/Src_applymw.v, re-translated from echo.go on every
+   run): for every middleware list and handler the FIRST middleware ends up outermost, the last one next to the handler - the
+   nesting [run_mws] gives a chain (route chains, Echo.Use and Echo.Pre all go through this one function) *)
+From Echo Require Import Gen.Src_applymw Http.ApplyMwSrc.
+Theorem C04_source_apply_middleware : forall (ms h0 : list val),
+  snd (GoLoop.run asym apred src_apply_middleware_results src_apply_middleware
+         {| locals := [("h"%string, VL h0); ("middleware"%string, VL ms); ("i"%string, VZ 0%Z)]; fields := []; lists := []; events := []; inputs := [] |})
+  = [VL (ms ++ h0)].
+Proof. exact ApplyMwSrc.C04_source_apply_middleware. Qed.
+Print Assumptions C04_source_apply_middleware.
